@@ -672,7 +672,7 @@ Lemma prule_ok : forall r k, wf_rule r = true -> rule_fits r -> prule pe (rtoks 
 Proof.
   intros [n d z w th] k Hwf [Dw Dt]. unfold wf_rule in Hwf. cbn [rname rdesc rsal rwhen rthen] in *.
   repeat (apply andb_true_iff in Hwf as [Hwf ?]).
-  unfold rtoks. cbn [rname rdesc rsal rwhen rthen prule pdesc].
+  unfold rtoks. cbn [rname rdesc rsal rwhen rthen prule pdesc]. rewrite unquote_quote_body.
   rewrite psalience_ok by assumption.
   rewrite (Hpe w) by auto.
   rewrite stmtloop_ok by assumption.
@@ -869,7 +869,7 @@ Proof.
   intros pe ts r rest H. unfold prule in H.
   destruct ts as [|t ts]; [discriminate|]. destruct t; try discriminate.
   destruct ts as [|t ts]; [discriminate|]. destruct t; try discriminate.
-  destruct (pdesc ts) as [d ts2].
+  destruct (pdesc ts) as [[d ts2]|]; [|discriminate].
   destruct (psalience ts2) as [[sal ts3]|] eqn:Es; [|discriminate].
   destruct ts3 as [|t ts3]; [discriminate|]. destruct t; try discriminate.
   destruct ts3 as [|t ts3]; [discriminate|]. destruct t; try discriminate.
@@ -922,9 +922,15 @@ Proof. destruct f; reflexivity. Qed.
 Lemma reject_empty_when : forall f n d sal rest,
   prule (pexpr f) (TRule :: TName n :: TStr true d :: TSalience :: TInt sal :: TLBrace :: TWhen :: TThen :: rest) = None.
 Proof.
-  intros. cbn [prule pdesc psalience]. destruct (in_i32 sal); [|reflexivity].
+  intros. cbn [prule pdesc]. destruct (unquote true d); [|reflexivity].
+  cbn [psalience]. destruct (in_i32 sal); [|reflexivity].
   rewrite pexpr_then_none. reflexivity.
 Qed.
+
+(* a description with a malformed escape is rejected *)
+Lemma reject_bad_description : forall pe n dq raw rest, unquote dq raw = None ->
+  prule pe (TRule :: TName n :: TStr dq raw :: rest) = None.
+Proof. intros pe n dq raw rest H. cbn [prule pdesc]. rewrite H. reflexivity. Qed.
 
 Lemma reject_empty_then : forall pe ts r rest, prule pe ts = Some (r, rest) -> rthen r <> [].
 Proof. intros. eapply prule_sound; eauto. Qed.
@@ -965,9 +971,11 @@ Example reject_examples :
       "rule R salience 2147483648 { when true then F.A = 2; }";      (* salience out of range *)
       "rule R { when F.A == 9223372036854775808 then F.A = 2; }";    (* integer out of range *)
       "rule R { when F.S == ""a\qb"" then F.A = 2; }";                (* malformed escape *)
-      "rule R { when true then F.A = 2; } rule R { when true then F.A = 3; }" (* duplicate name *)
+      "rule R { when true then F.A = 2; } rule R { when true then F.A = 3; }"; (* duplicate name *)
+      "rule R ""a\qb"" { when true then F.A = 2; }";                         (* malformed escape in the description *)
+      "rule R ""say \""hi\"" "" { when true then F.A = 2; }"                  (* accepted: escaped description *)
     ]%string
-  = [true; false; false; false; false; false; false; false; false; false; false; false].
+  = [true; false; false; false; false; false; false; false; false; false; false; false; false; true].
 Proof. vm_compute. reflexivity. Qed.
 
 (* ------------------------------------------------------------------------ *)
